@@ -72,6 +72,36 @@ int main(int argc, char **argv)
 				jwt_builder_free(b); jwt_checker_free(c);
 				jwks_free(set);	/* freed under the *using* provider */
 			}
+			/* provider switched in the middle of a history: the same builder, checker and keyring items are used under
+			 * alternating providers (patterns ABABAB and AABBAA); every token must verify under the same checker and the reference */
+			for (int lp = 0; lp < 2; lp++) for (int pat = 0; pat < 2; pat++) {
+				jwk_set_t *set = NULL;
+				const jwk_item_t *priv, *pub;
+				jwt_builder_t *b;
+				jwt_checker_t *c;
+				char *prev = NULL;
+				vh_case_begin((long)(1000 + i * 4 + (size_t)lp * 2 + (size_t)pat), "\"key\":\"%s\",\"switch\":%d,\"pattern\":%d", SPECS[i], lp, pat);
+				vh_set_prov(lp);
+				priv = vh_key_load(&k, 1, NULL, &set);
+				pub = vh_key_load(&k, k.kind == VH_K_OCT, NULL, &set);
+				b = jwt_builder_new(); c = jwt_checker_new();
+				jwt_builder_setkey(b, (jwt_alg_t)ALGS[i], priv);
+				jwt_checker_setkey(c, (jwt_alg_t)ALGS[i], pub);
+				for (int step = 0; step < 6; step++) {
+					int prov = pat == 0 ? (lp + step) & 1 : (lp + step / 2) & 1;
+					char *tok;
+					int vrc = -1, ref = -1, vprev = -1;
+					vh_set_prov(prov);
+					tok = jwt_builder_generate(b);
+					if (tok) { vrc = jwt_checker_verify(c, tok); ref = vh_ref_token_valid(&k, tok, NULL); }
+					if (prev) vprev = jwt_checker_verify(c, prev);	/* token made under the previous provider */
+					printf("[\"P2\",\"%s\",%d,%d,%d,%d,%d,%d,%d,%d,%d]\n", SPECS[i], ALGS[i], lp, pat, step, prov, tok == NULL, vrc, ref, vprev);
+					free(prev); prev = tok;
+				}
+				free(prev);
+				jwt_builder_free(b); jwt_checker_free(c);
+				jwks_free(set);
+			}
 			vh_key_free(&k);
 		}
 	}
